@@ -45,7 +45,7 @@ func init() {
 	}
 	for q := 0; q < 2; q++ {
 		p.Harnesses = append(p.Harnesses, HSpec{Prop: "C12", Pkg: L, Dir: "c12", Func: "VH_C12_IndentCooked", Cfg: cfg, Hang: true,
-			Label: fmt.Sprintf("[quote=%d]", q), Params: map[string]int{"QUOTE": q, "HOLE": 3, "OPTS": q * 3}, ParamsT: map[string]int{"HOLE": 4}, Reach: []string{"cooked/done"}})
+			Label: fmt.Sprintf("[quote=%d]", q), Params: map[string]int{"QUOTE": q, "HOLE": 3, "OPTS": q * 3}, Reach: []string{"cooked/done"}})
 	}
 	for _, n := range []int{1, 2, 5, 8, 10} {
 		tier := ""
